@@ -676,6 +676,7 @@ func c03PooledRead(c *Ctx, sh *shard, w *tWorld, wi int) {
 					c.violation("c03-pooled-read", "readPooledBlockRowData failed on a healthy block ("+spelling+"): "+err.Error(), desc)
 					continue
 				}
+				nRead := len(log.events)
 				// other scans: same classes as the compressed and the decoded buffer
 				var others [][]byte
 				for _, size := range []int{b.RowDataSize, len(want), b.RowDataSize} {
@@ -697,6 +698,7 @@ func c03PooledRead(c *Ctx, sh *shard, w *tWorld, wi int) {
 				for _, o := range others {
 					bs.VerifPutScanBuffer(o)
 				}
+				nRelease := len(log.events)
 				release()
 				bs.VerifSetSink(nil)
 				if !intact {
@@ -706,6 +708,8 @@ func c03PooledRead(c *Ctx, sh *shard, w *tWorld, wi int) {
 				events := append([]string(nil), log.events...)
 				desc["events"] = len(events)
 				sh.add(c, fmt.Sprintf("TOwn %s %s", coqN(0), coqList(events)), desc)
+				// the call on its own against the program of Model/ScanPool.v (which buffers it draws, returns and releases)
+				sh.add(c, fmt.Sprintf("TPooled %s %s %s", coqComp(b.Compression), coqList(events[:nRead]), coqList(events[nRelease:])), desc)
 				c.count([]string{"C03"}, fmt.Sprintf("pooled-%d-%s-%d-%s", wi, f.pointer, i, spelling), true, desc)
 				c.dist("c03_pooled_read", string(orig.Compression)+" / "+spelling)
 			}
